@@ -82,8 +82,11 @@ func (b *ClassifierBackend) ClassifyLicenses(numTasks int, filenames []string, h
 	var wg sync.WaitGroup
 	analyze := func(filename string) {
 		defer func() {
-			wg.Done()
+			// Hand the token back before signalling completion: once the last
+			// task is done the collector goroutine closes the task channel, and
+			// a send after that would panic.
 			task <- true
+			wg.Done()
 		}()
 		if err := b.classifyLicense(filename, headers); err != nil {
 			errs <- err
